@@ -839,6 +839,18 @@ func c7Eager(c *Ctx) {
 				}
 			}
 		}
+		// ... and the options it builds and applies right there (With as WithOptions(Fields(…)))
+		for _, f := range append([]*ssa.Function{}, region...) {
+			for _, cl := range Calls(f) {
+				sc := cl.Common().StaticCallee()
+				if sc == nil || sc == fn || sc.Pkg == nil || sc.Pkg.Pkg.Path() != ZapPath || sc.Signature.Results().Len() != 1 || len(sc.Blocks) == 0 {
+					continue
+				}
+				if TypeName(sc.Signature.Results().At(0).Type()) == "zap.Option" {
+					region = append(region, Region(sc)...)
+				}
+			}
+		}
 		for _, f := range region {
 			for _, g := range WithClosures(f) {
 				for _, cl := range Calls(g) {
